@@ -219,3 +219,50 @@ func ValidateNative(pkg string, res *ExploreResult, extra []Violation) (*NativeR
 	}
 	return RunNative(pkg, recs)
 }
+
+// VFSConformance builds and runs the file-system model's conformance test
+// (model vs real OS on seeded operation sequences) and returns the number
+// of sequences, operations and mismatches.
+func VFSConformance(seed int64) (seqs, ops, mismatches int, err error) {
+	tmp, err := os.MkdirTemp("", "verif-vfsconf-")
+	if err != nil {
+		return 0, 0, 0, err
+	}
+	defer os.RemoveAll(tmp)
+	replace := map[string]string{}
+	err = filepath.Walk(harnessDir, func(path string, info os.FileInfo, err error) error {
+		if err != nil || info.IsDir() || !strings.HasSuffix(path, ".go") {
+			return err
+		}
+		rel, _ := filepath.Rel(harnessDir, path)
+		replace[filepath.Join(repoDir, rel)] = path
+		return nil
+	})
+	if err != nil {
+		return 0, 0, 0, err
+	}
+	ovb, _ := json.Marshal(map[string]interface{}{"Replace": replace})
+	ovfile := filepath.Join(tmp, "overlay.json")
+	if err := os.WriteFile(ovfile, ovb, 0o644); err != nil {
+		return 0, 0, 0, err
+	}
+	bin := filepath.Join(tmp, "vfsconf.test")
+	env := append(os.Environ(), "GOFLAGS=-mod=mod", "GOPROXY=off", "GOSUMDB=off", "GOTOOLCHAIN=local", fmt.Sprintf("VERIF_SEED=%d", seed), "VFS_CONFORM_SEQS=300")
+	build := exec.Command("go", "test", "-tags", "verif", "-overlay", ovfile, "-vet=off", "-c", "-o", bin, "./internal/verifrt/vfs")
+	build.Dir = repoDir
+	build.Env = env
+	if out, err := build.CombinedOutput(); err != nil {
+		return 0, 0, 0, fmt.Errorf("cannot build vfs conformance test: %v: %s", err, truncStr(string(out), 1500))
+	}
+	run := exec.Command(bin, "-test.run", "TestConform", "-test.v")
+	run.Dir = tmp
+	run.Env = env
+	out, _ := run.CombinedOutput()
+	for _, line := range strings.Split(string(out), "\n") {
+		if strings.HasPrefix(line, "CONFORM ") {
+			fmt.Sscanf(line, "CONFORM sequences=%d ops=%d mismatches=%d", &seqs, &ops, &mismatches)
+			return seqs, ops, mismatches, nil
+		}
+	}
+	return 0, 0, 0, fmt.Errorf("vfs conformance test produced no result: %s", truncStr(string(out), 1500))
+}
